@@ -1,5 +1,7 @@
 import FluentProofs.ConstTieSyntax
 import FluentProofs.ParserLines
+import FluentProofs.ParserValid
+import FluentProofs.ParserValidEntry
 /-!
 # C03 — syntax errors are contained: Junk accounting and per-entry recovery
 
@@ -136,5 +138,101 @@ one error, and the message `b` survives -/
 example : (match parse #[97, 32, 61, 32, 123, 10, 98, 32, 61, 32, 99, 10] with
     | .done (body, errs) => errs.length == 1 && junkSpans body == [⟨0, 6⟩] && body.length == 2
     | _ => false) = true := by decide +kernel
+
+/-! ## C03, third sentence: an entry that breaks a documented syntax rule is never admitted
+
+`ValidEntry s e` (`FluentProofs/ParserValid.lean`, decidable) collects the documented rules that are
+visible in the tree: exactly one default variant per select; the selector is a literal, variable, function
+call or term attribute; no term attribute as a placeable (also nested); a callee is `[A-Z][A-Z0-9_-]*`;
+named-argument names are pairwise distinct; string literals contain only the escapes `\\`, `\"`, `\uXXXX`,
+`\UXXXXXX`, no raw line feed, no unescaped quote; identifiers are `[a-zA-Z][a-zA-Z0-9_-]*`; numbers are
+`-?[0-9]+(\.[0-9]+)?`; text elements contain no brace; every pattern has at least one element; a message has a
+value or an attribute.  It is trivially true of comments and Junk, so "every entry of the body is valid"
+says exactly "every admitted message or term is valid".  Not covered (the Rust parser is lenient there and
+the tree cannot show it): positional-after-named order, literal-ness of named values, commas.
+
+Proof: `FluentProofs/ParserValid{Leaf,Expr,Entry}.lean` — a second pass over every parser function in
+partial-correctness style (no hypothesis on the source, the cursor or the fuel), the eight mutually
+recursive functions by joint induction on fuel (`VSpecs`). -/
+
+open FluentProofs.Parser in
+/-- **C03 (admission), full parser, EVERY byte source**: every message and term in the body satisfies the
+AST-visible syntax rules (`ValidEntry` is trivially true for comments and Junk). -/
+theorem C03_admitted_entries_valid (s : Src) (body : Resource Span) (errs : List PErr)
+    (h : parse s = .done (body, errs)) : ∀ e ∈ body, ValidEntry s e :=
+  parse_valid s body errs h
+
+open FluentProofs.Parser in
+/-- **C03 (admission), runtime parser, EVERY byte source** -/
+theorem C03_admitted_entries_valid_runtime (s : Src) (body : Resource Span) (errs : List PErr)
+    (h : parseRuntime s = .done (body, errs)) : ∀ e ∈ body, ValidEntry s e :=
+  parseRuntime_valid s body errs h
+
+open FluentProofs.Parser in
+/-- the same in the "is a message or a term" form, for either parser -/
+theorem C03_admitted_messages_terms_valid (s : Src) (body : Resource Span) (errs : List PErr)
+    (h : parse s = .done (body, errs) ∨ parseRuntime s = .done (body, errs)) :
+    (∀ m, Entry.message m ∈ body → ValidEntry s (.message m)) ∧ (∀ t, Entry.term t ∈ body → ValidEntry s (.term t)) := by
+  rcases h with h | h
+  · exact ⟨fun m hm => C03_admitted_entries_valid s body errs h _ hm,
+      fun t ht => C03_admitted_entries_valid s body errs h _ ht⟩
+  · exact ⟨fun m hm => C03_admitted_entries_valid_runtime s body errs h _ hm,
+      fun t ht => C03_admitted_entries_valid_runtime s body errs h _ ht⟩
+
+open FluentProofs.Parser in
+/-- **C03 (admission) for every `String`**: both parsers finish (C01) and every admitted entry is valid. -/
+theorem C03_admitted_entries_valid_string (str : String) :
+    (∃ body errs, parse str.toUTF8.data = .done (body, errs) ∧ ∀ e ∈ body, ValidEntry str.toUTF8.data e) ∧
+    (∃ body errs, parseRuntime str.toUTF8.data = .done (body, errs) ∧ ∀ e ∈ body, ValidEntry str.toUTF8.data e) := by
+  obtain ⟨⟨b1, e1, h1, _⟩, ⟨b2, e2, h2, _⟩⟩ := C03_full_string str
+  exact ⟨⟨b1, e1, h1, C03_admitted_entries_valid _ b1 e1 h1⟩, ⟨b2, e2, h2, C03_admitted_entries_valid_runtime _ b2 e2 h2⟩⟩
+
+open FluentProofs.Parser in
+/-- one clause of `ValidEntry` spelled out: a select expression at the top level of an admitted message's
+value has exactly one default variant and an admissible selector -/
+theorem C03_one_default (s : Src) (body : Resource Span) (errs : List PErr) (h : parse s = .done (body, errs))
+    (m : Message Span) (hm : Entry.message m ∈ body) (v : Pattern Span) (hv : m.value = some v)
+    (sel : Inline Span) (vs : List (Variant Span)) (hsel : PatElem.placeable (.select sel vs) ∈ v) :
+    vs.countP variantDefault = 1 ∧ selectorOk sel = true := by
+  have hval : validEntry s (.message m) = true := C03_admitted_entries_valid s body errs h _ hm
+  simp only [validEntry, hv, Bool.and_eq_true] at hval
+  have hp : vPat s v = true := by
+    have := hval.1.1.2
+    simp only [patOk, Bool.and_eq_true] at this
+    exact this.2
+  have : ∀ (l : List (PatElem Span)), vPat s l = true → PatElem.placeable (.select sel vs) ∈ l →
+      vExpr s (.select sel vs) = true := by
+    intro l
+    induction l with
+    | nil => intro _ hmem; cases hmem
+    | cons x xs ih =>
+      intro hl hmem
+      simp only [vPat, Bool.and_eq_true] at hl
+      rcases List.mem_cons.mp hmem with rfl | hmem
+      · simpa [vPatElem] using hl.1
+      · exact ih hl.2 hmem
+  have hx := this v hp hsel
+  simp only [vExpr, Bool.and_eq_true, beq_iff_eq] at hx
+  exact ⟨hx.2, hx.1.1.2⟩
+
+/-- test (non-vacuity, not the unbounded claim): a select without a default variant
+(`a = { $x ->` / ` [a] b` / ` }`) yields no message — the whole entry is Junk with one error -/
+example : (match parse #[97, 32, 61, 32, 123, 32, 36, 120, 32, 45, 62, 10, 32, 91, 97, 93, 32, 98, 10, 32, 125, 10] with
+    | .done (body, errs) =>
+      errs.length == 1 && body.all (fun e => match e with | .message _ => false | .term _ => false | _ => true)
+    | _ => false) = true := by decide +kernel
+
+/-- test: with the default marked (`*[a] b`) the message is admitted, and `validEntry` evaluates to `true` on it -/
+example : (let s : Src := #[97, 32, 61, 32, 123, 32, 36, 120, 32, 45, 62, 10, 32, 42, 91, 97, 93, 32, 98, 10, 32, 125, 10]
+    match parse s with
+    | .done (body, errs) => errs.isEmpty && body.length == 1 && body.all (FluentProofs.Parser.validEntry s)
+    | _ => false) = true := by decide +kernel
+
+/-- test: `ValidEntry` is not trivially true — the hand-built message `a = { $x -> [a] b }` without a default,
+over the same source, is rejected by the predicate -/
+example : (let s : Src := #[97, 32, 61, 32, 123, 32, 36, 120, 32, 45, 62, 10, 32, 91, 97, 93, 32, 98, 10, 32, 125, 10]
+    FluentProofs.Parser.validEntry s
+      (.message ⟨⟨0, 1⟩, some [.placeable (.select (.var ⟨7, 8⟩) [.mk (.ident ⟨14, 15⟩) [.text ⟨17, 18⟩] false])], [], none⟩))
+    = false := by decide +kernel
 
 end FluentProofs.C03
